@@ -73,9 +73,11 @@ def rand_sig(rng, B, d, pat=None):
 # (called from known_findings.jsonl `py` conditions; each describes the input class of one defect)
 
 def kf_split_small(op, args):
-    """`split_at_point_internal` shortcut: the number is known to be < 1/B (exp + digits <= -2; for
-    `round` additionally not caught by its own `< -2` shortcut) and the nearest-mode half test is made
-    against B^precision instead of B^-exp: wrong when 2|signif| >= B^precision (or precision = 0)."""
+    """`split_at_point_internal` shortcut: the number is known to be < 1/B^2 (exp + digits_ub <= -2; for
+    `round` additionally not caught by its own `< -2` shortcut) and the number of fraction digits is
+    reported as `context.precision` instead of `-exp`.  Consequences: the nearest-mode half test is made
+    against B^precision (wrong when 2|signif| >= B^precision; a debug assertion when precision = 0), and
+    `round` computes the result precision as precision - precision = 0 instead of precision + exp."""
     B, s, e, p, m = fdec(args[0])
     s, e = normalize(B, s, e)
     if s == 0 or e >= 0:
@@ -87,10 +89,12 @@ def kf_split_small(op, args):
         if e + d < -3:       # digits_ub may exceed digits by one; `round` returns 0 when exp + digits_ub < -2
             return False
         mode = "H"
+        if p > -e:
+            return True      # result precision
     else:
         mode = m
     if p == 0:
-        return True          # debug assertion in round_fract (fract >= B^0), release: rounds to +-1
+        return True          # debug assertion in round_fract (fract >= B^0); release build: rounds to +-1
     if mode == "H":
         return 2 * abs(s) >= B ** p
     if mode == "E":
